@@ -24,7 +24,8 @@ SHRINK_LISTS = [('faults',)]
 EXPECTED_PROBES = ['abandon_at_connected', 'abandon_at_poll',
                    'abandon_at_message', 'abandon_at_closing',
                    'abandon_at_unresponsive', 'abandon_while_closing',
-                   'abandon_in_persist', 'abandon_at_ready']
+                   'abandon_in_persist', 'abandon_at_ready',
+                   'abandon_while_other_thread_sends']
 
 MECH = ['break', 'raise', 'close', 'with']
 SLOTS = 4 * 120
@@ -38,13 +39,111 @@ def _nevents(b):
     return _NEV[b]
 
 
+TSLOT = 2500
+TBASES = [
+    {'name': 'abandon_at_text_vs_sender', 'loop': ['text'],
+     'threads': [[{'op': 'send_binary',
+                   'hex': ('T1-0-' + 'x' * 3000).encode().hex()}]],
+     'abandon': {'name': 'text', 'nth': 0}},
+    {'name': 'abandon_at_poll_vs_two_senders', 'loop': ['ping'],
+     'threads': [[{'op': 'send_text', 'text': 'T1-0-' + 'y' * 200}],
+                 [{'op': 'send_text', 'text': 'T2-0-' + 'z' * 200}]],
+     'abandon': {'name': 'ping', 'nth': 0}},
+]
+_TINFO = {}
+
+
+def _tinfo(b):
+    from . import _threads as T
+    if b not in _TINFO:
+        base = dict(TBASES[b])
+        _TINFO[b] = T.default_steps(base)
+    return _TINFO[b]
+
+
 def plan(tier):
     nb = len(C09.bases())
     return [('sweep', nb * SLOTS),
-            ('seeded', 2000 if tier == 'quick' else 100000)]
+            ('seeded', 2000 if tier == 'quick' else 100000),
+            ('threaded_sweep', len(TBASES) * TSLOT * 2),
+            ('threaded_random', 300 if tier == 'quick' else 30000)]
+
+
+def _threaded_case(family, i, rng):
+    from . import _threads as T
+    if family == 'threaded_sweep':
+        senders_first = i >= len(TBASES) * TSLOT
+        i %= len(TBASES) * TSLOT
+        b = i // TSLOT
+        n, nt = _tinfo(b)
+        slot = i % TSLOT
+        step, who = slot // (nt + 1), slot % (nt + 1)
+        if step < 2 or step > n + 40:
+            return None
+        tid = who if who < nt else T.threadsim.CLOCK
+        case = copy.deepcopy(TBASES[b])
+        pts = [[step, tid]]
+        if senders_first:
+            pts = [[1, 1]] + pts
+        case['schedule'] = {'kind': 'preempt', 'points': pts}
+    else:
+        case = copy.deepcopy(TBASES[rng.randrange(len(TBASES))])
+        case['schedule'] = {'kind': 'random', 'seed': rng.getrandbits(32),
+                            'stay': rng.choice([0.5, 0.8, 0.95])} \
+            if rng.random() < 0.6 else \
+            {'kind': 'pct', 'seed': rng.getrandbits(32),
+             'd': rng.choice([1, 2, 3]), 'horizon': 500}
+    case['threaded'] = True
+    case['how'] = ['break', 'close'][i % 2]
+    return case
+
+
+def _execute_threaded(case):
+    from . import _threads as T
+    res = Result()
+    sc = T.build(case)
+    sc['app'] = [{'when': dict(case['abandon']),
+                  'do': [{'op': 'abandon', 'how': case.get('how', 'break')}]}]
+    tr, sched = T.threadsim.run(sc)
+    w = tr.world
+    res.stats.update(w.stats)
+    res.sim_us = w.now
+    res.digest = T.digest(tr, sched)
+    if sched.error is not None:
+        raise RuntimeError('ThreadSim harness error: %r' % (sched.error,))
+    if tr.hang:
+        res.bad('C13/threaded/hang', tr.hang)
+    if tr.escaped:
+        res.bad('C13/threaded/escaped', '%s %s' % tr.escaped)
+    res.stats['probe:abandon_while_other_thread_sends'] += 1
+    if tr.abandoned is not None:
+        rel = tr.release or {'socks': []}
+        idx, how, evname = tr.abandoned
+        for srec in rel['socks']:
+            if not srec['closed'] or srec['by_gc']:
+                res.bad('C13/threaded/socket_not_closed/%s/%s' % (how, evname),
+                        'base %s: the consumer stopped at %s by %s while '
+                        'another thread was sending; socket %d was never '
+                        'closed by the library | %s' % (
+                            case['name'], evname, how, srec['sock'],
+                            T.site_signature(sched)))
+        if rel.get('selectors_created', 0) != rel.get('selectors_closed', 0):
+            res.bad('C13/threaded/selector_not_closed', '%r' % rel)
+    for c in tr.tcalls:
+        if c.outcome == 'raised' and not c.exc_is_wse:
+            res.bad('C13/threaded/send_raised_' + c.exc, c.op['op'])
+    res.nontrivial = tr.abandoned is not None
+    res.sig = 'thr|%s|%s|%s' % (case['name'], case.get('how'),
+                                T.site_signature(sched))
+    res.sample = {'base': case['name'], 'how': case.get('how'),
+                  'schedule': case.get('schedule'),
+                  'abandoned': tr.abandoned, 'release': tr.release}
+    return res
 
 
 def make_case(family, i, rng, tier):
+    if family.startswith('threaded'):
+        return _threaded_case(family, i, rng)
     if family == 'sweep':
         b = i // SLOTS
         slot = i % SLOTS
@@ -73,6 +172,8 @@ def build(case):
 
 
 def execute(case):
+    if case.get('threaded'):
+        return _execute_threaded(case)
     res = Result()
     sc = build(case)
     tr = netsim.run(sc)
